@@ -69,6 +69,9 @@ class SymSet:
 
 
 def _term(v):
+    ft = _fmt_string_term(v)
+    if ft is not None:
+        return ft
     if isinstance(v, Sym):
         return v.z
     if isinstance(v, bool):
@@ -82,6 +85,16 @@ def _term(v):
     if isinstance(v, z3.ExprRef):
         return v
     raise Unsupported(f"no z3 term for {type(v).__name__}")
+
+
+def _fmt_string_term(v):
+    """an f-string whose parts are all (symbolic) strings denotes their concatenation"""
+    from ..values import Fmt
+
+    if isinstance(v, Fmt) and v.parts and all(isinstance(x, (str, SStr)) for x in v.parts):
+        ts = [z3.StringVal(x) if isinstance(x, str) else x.z for x in v.parts]
+        return ts[0] if len(ts) == 1 else z3.Concat(*ts)
+    return None
 
 
 def _wrap(z):
